@@ -169,6 +169,30 @@ fn p_child_owned() {
     kani::cover!(which == 2, "consuming parent");
 }
 
+//@ prefix=p_wrapres kind=property clause=wrapped owned children returned inside Result / integer-coded Result: variant and error payload cross unchanged, a returned child owns its value (destroyed exactly once), no child is created or destroyed on the failure variants
+#[kani::proof]
+#[kani::unwind(4)]
+fn p_wrapres_children() {
+    let (id, cid): (u32, u32) = kani::any();
+    let bad: bool = kani::any();
+    let which: u8 = kani::any();
+    kani::assume(which < 2);
+    let parent = trait_obj!(P::new(id) as Maker);
+    match which {
+        0 => match parent.try_make(cid, bad) {
+            Ok(c) => { assert!(!bad && c.get() == cid && made() == 2 && drops() == 0, "C06 Ok(child) arrives as Ok with a live child"); drop(c); assert!(drops() == 1); }
+            Err(e) => assert!(bad && e == cid as u64 ^ 0xE0 && made() == 1 && drops() == 0, "C06 Err payload crosses unchanged, no child created or destroyed"),
+        },
+        _ => match parent.code_make(cid, bad) {
+            Ok(c) => { assert!(!bad && c.get() == cid && made() == 2 && drops() == 0, "C06 integer-coded Ok(child) arrives with a live child"); drop(c); assert!(drops() == 1); }
+            Err(()) => assert!(bad && made() == 1 && drops() == 0, "C06 integer-coded Err: no child created or destroyed"),
+        },
+    }
+    drop(parent);
+    assert!(drops() == made(), "C06 everything destroyed exactly once");
+    kani::cover!(which == 0 && bad, "Err");
+    kani::cover!(which == 1 && !bad, "int Ok");
+}
 //@ prefix=b_seq kind=property clause=bounded cross-check: all sequences of 3 symbolic operations over {into_opaque-call, as_ref, cast+upcast, clone+drop clone, failing cast} end with every value destroyed exactly once and nothing leaked
 #[kani::proof]
 #[kani::unwind(5)]
